@@ -34,8 +34,8 @@ func (c17) Assumptions() []string {
 		"$defs and definitions never share an object; array-form items, dependencies, additionalItems, definitions only under a draft-07 root"}
 }
 
-var ptrKeys = []string{"", "/", "~", "~0", "~1", "~01", "%", "%25", " ", "a b", "é", "日本", "0", "01", "-", "#", "?", "\"", "\\", "a/b", "~~", "%2F", "+1", "-0", "a", "b", "k", "a+b", "c++", "+", "a&b", "x=y;z", "$ref", "(", "a,b", "@", "!", "*"}
-var ptrPatternKeys = []string{"", "/", "~", "~0", "~1", "~01", "%", "%25", " ", "a b", "é", "日本", "0", "01", "-", "#", "\"", "a/b", "~~", "%2F", "-0", "^a", "b$", "a+b", "a&b", "@"}
+var ptrKeys = []string{"", "/", "~", "~0", "~1", "~01", "%", "%25", " ", "a b", "é", "日本", "0", "01", "-", "#", "?", "\"", "\\", "a/b", "~~", "%2F", "+1", "-0", "a", "b", "k", "a+b", "c++", "+", "a&b", "x=y;z", "$ref", "(", "a,b", "@", "!", "*", "\ufffd", "a\ufffdb", "\U0001F600", "\ufeff", "\u00a0"}
+var ptrPatternKeys = []string{"", "/", "~", "~0", "~1", "~01", "%", "%25", " ", "a b", "é", "日本", "0", "01", "-", "#", "\"", "a/b", "~~", "%2F", "-0", "^a", "b$", "a+b", "a&b", "@", "\ufffd", "\U0001F600"}
 
 type stepKind int
 
